@@ -42,8 +42,8 @@ fn count(ds: &Vec<crate::diagnostics::Diagnostic>, code: &str) -> usize {
     n
 }
 
-macro_rules! stream_last_3 {
-    ($s0:expr, $s1:expr, $s2:expr, $want:expr) => {{
+macro_rules! stream_case_3 {
+    ($s0:expr, $s1:expr, $s2:expr) => {{
         let p0 = param($s0);
         let p1 = param($s1);
         let p2 = param($s2);
@@ -51,13 +51,16 @@ macro_rules! stream_last_3 {
         ps.push(&p0);
         ps.push(&p1);
         ps.push(&p2);
-        let mut diagnostics = Diagnostics::verif_with_capacity(2);
-        stream_parameter_is_last(&ps[..], &mut diagnostics);
+        let mut diagnostics = Diagnostics::verif_with_capacity(4);
+        validate_parameters(&ps[..], &mut diagnostics);
         let ds = diagnostics.into_inner();
-        assert!(ds.len() == $want as usize, "a streamed parameter is diagnosed exactly when it is not the last one");
-        if $want {
-            assert!(ds[0].code() == "E013", "with E013 (streamed members must be last)");
-        }
+        let streamed = $s0 as usize + $s1 as usize + $s2 as usize;
+        let want_e013 = $s0 as usize + $s1 as usize;
+        let want_e029 = if streamed > 1 { streamed - 1 } else { 0 };
+        assert!((ds.len() == 0) == (!$s0 && !$s1), "accepted exactly when 'stream' appears at most on the last parameter");
+        assert!(count(&ds, "E013") == want_e013, "every streamed parameter that is not last is diagnosed");
+        assert!(count(&ds, "E029") == want_e029, "multiple streamed parameters are diagnosed");
+        assert!(ds.len() == want_e013 + want_e029, "no other diagnostic is produced");
         core::mem::forget(ds);
         core::mem::forget(ps);
         core::mem::forget(p0);
@@ -69,60 +72,38 @@ macro_rules! stream_last_3 {
 //@ prop: C04
 //@ family: K04-params
 //@ tier: quick
-//@ functions: validators::parameters::stream_parameter_is_last
-//@ inst: &[&Parameter] of exactly 3 hand-built parameters; two concrete layouts selected symbolically: (x, plain, y) and (plain, x, y)
-//@ inputs: is_streamed of the symbolic positions: stream on the first, on the middle, on the last parameter, and combinations with the last
-//@ oracle: "'stream' only on the ... last parameter": E013 exactly when the first resp. middle parameter is streamed, whatever the last one is; nothing else
+//@ functions: validators::parameters::validate_parameters (public rule entry), stream_parameter_is_last, at_most_one_stream_parameter
+//@ inst: &[&Parameter] of exactly 3 hand-built parameters; all 8 stream placements as concrete layouts behind a symbolic selector
+//@ inputs: the placement (8 cases: exhaustive for three boolean flags)
+//@ oracle: accepted iff no parameter other than the last is streamed; E013 once per streamed parameter that is not last; E029 once per streamed parameter beyond the first when several are streamed; nothing else
 //@ stubs: std::fmt::format -> empty string
-//@ bound: unwind 6; at most one diagnostic per layout (a data-dependent position in the diagnostics vector costs > 10 GB)
+//@ bound: unwind 6; flags enumerated as concrete cases, so every diagnostic lands at a concrete position
+//@ timeout: 900
 #[kani::proof]
 #[kani::unwind(6)]
 #[kani::stub(std::fmt::format, stub_format)]
-fn k04_stream_not_last_3() {
-    let x: bool = kani::any();
-    let y: bool = kani::any();
-    let first: bool = kani::any();
-    kani::cover!(first && x && !y, "stream on the first parameter only reachable");
-    kani::cover!(!first && x && !y, "stream on the middle parameter only reachable");
-    kani::cover!(!x && y, "stream on the last parameter only reachable");
-    if first {
-        stream_last_3!(x, false, y, x)
+fn k04_stream_placement_3() {
+    let case: u8 = kani::any();
+    kani::assume(case < 8);
+    kani::cover!(case == 2, "stream on the middle parameter only reachable");
+    kani::cover!(case == 7, "three streamed parameters reachable");
+    kani::cover!(case == 1, "stream on the last parameter only reachable");
+    if case == 0 {
+        stream_case_3!(false, false, false)
+    } else if case == 1 {
+        stream_case_3!(false, false, true)
+    } else if case == 2 {
+        stream_case_3!(false, true, false)
+    } else if case == 3 {
+        stream_case_3!(false, true, true)
+    } else if case == 4 {
+        stream_case_3!(true, false, false)
+    } else if case == 5 {
+        stream_case_3!(true, false, true)
+    } else if case == 6 {
+        stream_case_3!(true, true, false)
     } else {
-        stream_last_3!(false, x, y, x)
+        stream_case_3!(true, true, true)
     }
 }
 
-//@ prop: C04
-//@ family: K04-params
-//@ tier: quick
-//@ functions: validators::parameters::at_most_one_stream_parameter
-//@ inst: &[&Parameter] of exactly 2 hand-built parameters
-//@ inputs: is_streamed of both
-//@ oracle: "'stream' only on the single last parameter": E029 exactly when both are streamed (one diagnostic); nothing else
-//@ stubs: std::fmt::format -> empty string
-//@ bound: unwind 6
-#[kani::proof]
-#[kani::unwind(6)]
-#[kani::stub(std::fmt::format, stub_format)]
-fn k04_single_stream_2() {
-    let st: [bool; 2] = kani::any();
-    let p0 = param(st[0]);
-    let p1 = param(st[1]);
-    let mut ps: Vec<&Parameter> = Vec::with_capacity(2);
-    ps.push(&p0);
-    ps.push(&p1);
-    let mut diagnostics = Diagnostics::verif_with_capacity(2);
-    at_most_one_stream_parameter(&ps[..], &mut diagnostics);
-    let want = st[0] && st[1];
-    kani::cover!(want, "two streamed parameters reachable");
-    kani::cover!(st[1] && !st[0], "single streamed last parameter reachable");
-    let ds = diagnostics.into_inner();
-    assert!(ds.len() == want as usize, "multiple streamed parameters are diagnosed, a single one is not");
-    if want {
-        assert!(ds[0].code() == "E029", "with E029 (multiple streamed members)");
-    }
-    core::mem::forget(ds);
-    core::mem::forget(ps);
-    core::mem::forget(p0);
-    core::mem::forget(p1);
-}
